@@ -10,6 +10,7 @@ package main
 
 import (
 	"fmt"
+	"strconv"
 
 	"github.com/yuin/goldmark/ast"
 	east "github.com/yuin/goldmark/extension/ast"
@@ -260,6 +261,8 @@ func implWfast(cs Case) ImplResult {
 	w := &wfChecker{src: src, seen: map[ast.Node]bool{}, kinds: map[string]int{}}
 	w.node(doc, nil, false)
 	res := ImplResult{Out: "ok", NoModel: true, Fails: w.fails}
+	// the formal statement (GM.Spec.AstWF.wfAst) evaluated by the model driver on the same tree
+	res.Checks = []ModelCheck{{Line: "wfast check " + strconv.Itoa(len(src)) + " " + DumpPositions(doc, src), Property: "C05"}}
 	if key, nt := kindKey(w.kinds); nt {
 		res.Key = c.Name() + "|" + key
 	}
